@@ -1086,6 +1086,11 @@ func (h *c12H) runCase(sc *c12Script) {
 				if f.End == 0 && f.Start <= uint64(hk) {
 					rounds := (uint64(hk)-f.Start)/f.Interval + 1 + uint64(r.Intn(2))
 					e := f.Start + rounds*f.Interval + mn + uint64(r.Intn(int(f.Interval-mn)))
+					if r.Intn(3) == 0 {
+						// an end block ON a round boundary or inside the round's window: Params.Validate must refuse it
+						e = f.Start + rounds*f.Interval + uint64(r.Intn(int(mn)))
+						h.w.Count("case.params-update=end-block(inside-window)")
+					}
 					fs := append([]c12Feeder{}, p.Feeders...)
 					fs[i].End = e
 					p.Feeders = fs
@@ -1205,6 +1210,8 @@ func (h *c12H) runCase(sc *c12Script) {
 			uctx, write := bctx.CacheContext()
 			if _, err := handler(uctx, updMsg); err != nil {
 				h.w.Count("params-update.rejected")
+				p = *setupP // the case is recorded with the params the chain really has
+				g.p = p
 			} else {
 				write()
 				h.w.Count("params-update.applied")
@@ -1270,6 +1277,15 @@ func (h *c12H) runCase(sc *c12Script) {
 			}
 		} else if r.Intn(14) == 0 {
 			ups = g.genUpdate(st)
+		} else if r.Intn(3) == 0 {
+			// boundary pool: a validator-set change in exactly the block in which a round opens
+			for _, f := range p.Feeders {
+				if uint64(height) >= f.Start && (f.End == 0 || uint64(height) < f.End) && (uint64(height)-f.Start)%f.Interval == 0 {
+					ups = g.genUpdate(st)
+					h.w.Count("block.valset-update@round-open")
+					break
+				}
+			}
 		}
 		if len(ups) > 0 {
 			h.w.Count("block.valset-update")
